@@ -228,6 +228,7 @@ class FnCheck(Check):
         ctx.max_paths = self.max_paths
         ctx.float_model = self.float_model
         ctx.exc_attr_nonnull = set(getattr(self, 'exc_attr_nonnull', ()))
+        ctx.membership = {}
         ex = Executor(ctx)
         ctx.callees = self.callees(ex)
         ctx.loops = self.loops(ex)
